@@ -56,10 +56,67 @@ def cid_file(config):
     return path
 
 
+def judge_unconvertible(case, part):
+    """Excel data holding one date cell that cannot be converted (a date formatted -1): the row readers work row by row, so the cell matters only
+    when its row is reached - the validate-only API with a limit in front of it succeeds, and the row-reading API delivers the rows in front of it."""
+    import cutplace
+
+    errors = harness.modules()["errors"]
+    header, count, bad_at, limit = case["header"], case["rows"], case["bad_at"], case["limit"]
+    tag = "excel|header=%d|unconvertible-date-cell|%%s" % header
+    path = os.path.join(readermachine.tmpdir(), "c07_unconvertible_%d.xlsx" % os.getpid())
+    workbook = harness.new_workbook(path)
+    sheet = workbook.add_worksheet()
+    date_format = workbook.add_format({"num_format": "yyyy-mm-dd"})
+    for y in range(header + count):
+        if y == bad_at:
+            sheet.write_number(y, 0, -1, date_format)
+        else:
+            sheet.write_string(y, 0, "r%d" % y)
+    workbook.close()
+    cid_rows = [["D", "Format", "Excel"], ["D", "Header", str(header)], ["F", "a"]]
+    part.evaluations += 1
+    part.nontrivial += 1
+    part.transitions += 2
+    row_number = bad_at + 1
+    try:
+        cutplace.validate(harness.make_cid(cid_rows), path, validate_until=limit)
+        validated = "ok"
+    except errors.DataFormatError:
+        validated = "rejected"
+    except Exception as error:
+        validated = "other:" + type(error).__name__
+    if limit is None or row_number <= limit:
+        expected = "rejected"
+    elif row_number > header + limit:
+        expected = "ok"
+    else:
+        expected = None  # behind the limit but among the rows the reader fetches to deliver N data rows: not judged
+    if expected is not None:
+        part.validated += 1
+        if validated != expected:
+            part.fail(tag % ("validate:%s-but-expected-%s" % (validated, expected)), case, expected, validated)
+    if limit is None:
+        delivered, raised = [], None
+        try:
+            for row in cutplace.rows(harness.make_cid(cid_rows), path, on_error="yield"):
+                delivered.append(row)
+        except errors.DataFormatError:
+            raised = "DataFormatError"
+        except Exception as error:
+            raised = "other:" + type(error).__name__
+        part.validated += 1
+        expected_rows = [["r%d" % y] for y in range(header, bad_at)]
+        if delivered != expected_rows or raised != "DataFormatError":
+            part.fail(tag % "rows-in-front-of-the-cell", case, [expected_rows, "DataFormatError"], [delivered, raised])
+
+
 def judge(case, part):
     from cutplace import applications
     import cutplace
 
+    if case.get("unconvertible"):
+        return judge_unconvertible(case, part)
     m = harness.modules()
     errors = m["errors"]
     config = {"preset": case["preset"], "header": case["header"], "fields": FIELDS, "checks": []}
@@ -278,6 +335,10 @@ def work(item):
     preset, header, chunk, of = item[:4]
     part = Part()
     cases = enumerate_cases(preset, header, *item[4:])
+    if preset == "excel":
+        rows = item[4]
+        cases = cases + [{"unconvertible": True, "header": header, "rows": count, "bad_at": bad_at, "limit": limit}
+                         for count in range(1, rows + 1) for bad_at in range(header, header + count) for limit in [None] + list(range(0, header + count + 2))]
     for case in cases[chunk::of]:
         judge(case, part)
     part.sample(cases[len(cases) // 2], limit=1)
@@ -295,7 +356,8 @@ def run(ctx):
     total = sum(len(enumerate_cases(p, h, max_rows)) for p in ("delimited", "fixed") for h in range(max_header + 1))
     total += sum(len(enumerate_cases(p, h, sheet_rows)) for p in ("ods", "excel") for h in range(sheet_header + 1))
     ctx.bound = {"cases": total, "header": "0..%d" % max_header, "data rows": "0..%d" % max_rows, "limit": "none, 0..rows+header+1", "header rows": "plain; delimited also with quoted line breaks and quotes inside header cells", "bad row": "none or one at every position 1..rows+header (also inside the header); kinds: bad cell (2 kinds), one item short, one item long (delimited)",
-                 "apis": ["cutplace.rows x 3 modes", "cutplace.validate", "applications.main --until (and --until -1 / absent for no limit)"]}
+                 "apis": ["cutplace.rows x 3 modes", "cutplace.validate", "applications.main --until (and --until -1 / absent for no limit)"],
+                 "excel date cell that cannot be converted": "at every data row of sheets of 1..%d rows x every limit: validate succeeds iff the limit ends in front of it, rows() delivers the rows in front of it" % sheet_rows}
     ctx.rule = "full product, no sampling; non-trivial = case with a bad row; oracle: rejection reported iff position > header and (no limit or position <= limit); states = (format, header) configurations"
     ctx.assumptions = ["in fixed format a bad row is a bad cell only (a record of the wrong width is a container fault, C06/C13)"]
     ctx.pmap(MOD, "work", items, label="C07")
